@@ -1,25 +1,56 @@
 // xlate_params — translator tie (T) for C19: reads gencommon/params.go and gencommon/method.go
-// of the current tree with go/parser and regenerates Gallina definitions of
+// of the current tree with go/parser and regenerates Gallina definitions of the parameter-naming
+// code reachable from MethodFromSignature:
 //
-//	reserveParamName, getSafeParamName, Params.keepNames, Params.ensureNames,
-//	Method.ensureParamNames
+//	Method.ensureParamNames, Params.keepNames, Params.ensureNames, getSafeParamName,
+//	reserveParamName (whatever they are called today) and every unexported helper they call
 //
 // over the primitives of GT.IFaceGenPrims (map_get/map_has/map_set, fmt_int, while_loop,
-// range_upd, type_implements_*).  coq/ties/Tie_C19.v proves each regenerated function equal to
-// the hand-written model of IFaceModel.v that Props/C19.v (C19_names) is about.
+// range_upd, type_implements_*).  coq/ties/Tie_C19.v proves each regenerated function equal — for
+// all arguments — to the hand-written model of IFaceModel.v that Props/C19.v (C19_names) is about.
+//
+// Functions are found by ROLE, not by name: the entry is the method MethodFromSignature calls on
+// the Method it builds; its callees are translated on demand, depth first.  A function gets its
+// canonical Gallina name from the shape of its signature
+//
+//	(m *Method) f()                          gen_ensureParamNames
+//	(ps Params) f(map[string]int)            gen_keepNames
+//	(ps Params) f(map[string]int, bool)      gen_ensureNames
+//	f(map[string]int, string, bool) string   gen_getSafeParamName
+//	f(map[string]int, string) string         gen_reserveParamName
+//
+// and any other function (helper extraction) is emitted as gen_h_<GoName>; the generated file ends
+// with `Ltac unfold_gen_helpers` unfolding all of those, which the tie proofs call.  A wrong role
+// guess cannot make the tie pass: the lemmas are about the canonical names.
 //
 // Go maps and the elements of Params ([]*Param) are references: a translated function takes the
 // maps / parameter lists it can mutate as arguments and returns them next to its Go result
 // (result first, then the receiver list, then the map parameters in order).
 //
-// Supported subset: `x := e`, `x = e`, `x++`, `v, ok := m[k]`, `_, ok = m[k]`, `m[k] = e`,
-// `p.Name = e`, `if [init;] c {…} [else if … | else {…}]` (no return inside), 3-clause `for`,
-// `for i, p := range ps` over the receiver list, calls of the translated functions (statement or
-// nested expression; evaluated innermost first), `return e` as last statement, string literals,
-// `+` on strings, `strconv.FormatInt(int64(v), 10)`, `len(ps)`, `-`, `==`, `!=`, `!`, `&&`, `||`,
+// Supported subset: `x := e`, `x = e`, `var x T`, `x++`, `v, ok := m[k]`, `_, ok = m[k]`, `m[k] = e`,
+// `p.Name = e`, `ps[i].Name = e`, `p := ps[i]`; `if [init;] c {…} [else if … | else {…}]` — as a
+// value when no branch jumps, in tail form (the rest of the block duplicated into both branches)
+// when a branch ends in continue / break / return, so that early-continue and guard clauses are the
+// nested ifs they abbreviate; tagless `switch [init;] { case …: … default: … }` as the if-chain it
+// is; the 3-clause `for`; `for { … if c { break } … }` (a go flag is added to the loop state);
+// `for i, p := range ps`, `for i := range ps`, `for _, p := range ps` and the index loop
+// `for i := 0; i < len(ps); i++` over the receiver list (all of them range_upd; `ps[i]` is the
+// element); calls of translated functions (statement or nested expression; evaluated innermost
+// first); `return e`; string literals, `+` on strings, `strconv.FormatInt(int64(v), 10)`,
+// `strconv.Itoa(v)`, `len(ps)`, `-`, `==`, `!=`, `!`, `&&`, `||`,
 // `TypeImplements(p.ActualType, ErrorInterface|ContextInterface)`, `make(map…)`, `m.Input`/`m.Output`.
 // Anything else is rendered as UNSUPPORTED_<what>, which makes the generated file fail to compile
 // and thereby breaks the tie.  Standard library only.
+//
+// Also translated, from imports.go and interface.go (same subset, two more reference types):
+//
+//	(id *ImportDesc) ImportString() string   gen_ImportString   (record imp; fields Alias, PkgPath,
+//	                                                             aliasIsPackageName, inUse)
+//	the loop of namedTypeToInterface that merges the methods of one embedded field into the
+//	candidate map and the conflict set (found by structure: the range loop whose body deletes
+//	from a map)                                gen_merge_step     (mmap_* / mset_* primitives)
+//	the condition under which a declared method is listed (the if whose condition asks
+//	`.Exported()`)                             gen_visible
 //
 //	xlate_params -src <repo>/gencommon -out ParamsGen.v
 package main
@@ -37,25 +68,47 @@ import (
 	"strings"
 )
 
-var wanted = []string{"reserveParamName", "getSafeParamName", "keepNames", "ensureNames", "ensureParamNames"}
-
 // what a translated function looks like from a call site
 type sig struct {
 	recv   string   // "" | "plist" | "method"
 	params []string // types of the Go parameters
 	result string   // "" or type of the Go result
+	coq    string   // Gallina name
 }
 
-var sigs = map[string]*sig{}
+var (
+	decls      = map[string]*ast.FuncDecl{}
+	sigs       = map[string]*sig{}
+	inProgress = map[string]bool{}
+	usedCoq    = map[string]bool{}
+	helpers    []string
+	translated []string
+	defs       strings.Builder
+	problems   []string
+)
 
 var coqType = map[string]string{"map": "dmap", "string": "string", "bool": "bool", "N": "N", "nat": "nat",
-	"plist": "list pinfo", "pinfo": "pinfo"}
+	"plist": "list pinfo", "pinfo": "pinfo", "imp": "imp", "mmap": "list (string * A)", "mset": "list string", "melem": "A"}
+
+// fields of *ImportDesc
+var impField = map[string][2]string{"Alias": {"i_alias", "string"}, "PkgPath": {"i_path", "string"},
+	"aliasIsPackageName": {"i_alias_is_pkg", "bool"}, "inUse": {"i_in_use", "bool"}}
+
+type loopCtx struct {
+	kind string   // "range" | "dowhile" | "for3"
+	src  string   // range: the list variable
+	idx  string   // range: Go name of the index variable ("" = none)
+	elem string   // range: Go name of the variable that currently stands for the element
+	vars []string // loop-carried variables
+}
 
 type fn struct {
+	name     string
 	env      map[string]string
 	problems []string
 	tmp      int
 	outs     []string // variables returned after the Go result
+	loop     *loopCtx
 }
 
 func (f *fn) bad(what string) string {
@@ -82,11 +135,73 @@ func goType(t ast.Expr) string {
 			return "nat"
 		}
 	case *ast.StarExpr:
-		if id, ok := x.X.(*ast.Ident); ok && id.Name == "Method" {
-			return "method"
+		if id, ok := x.X.(*ast.Ident); ok {
+			switch id.Name {
+			case "Method":
+				return "method"
+			case "Param":
+				return "pinfo"
+			case "ImportDesc":
+				return "imp"
+			}
 		}
 	}
 	return "unknown"
+}
+
+func sigOf(fd *ast.FuncDecl) *sig {
+	sg := &sig{}
+	if fd.Recv != nil && len(fd.Recv.List) == 1 {
+		sg.recv = goType(fd.Recv.List[0].Type)
+	}
+	for _, p := range fd.Type.Params.List {
+		n := len(p.Names)
+		if n == 0 {
+			n = 1
+		}
+		for i := 0; i < n; i++ {
+			sg.params = append(sg.params, goType(p.Type))
+		}
+	}
+	if fd.Type.Results != nil && len(fd.Type.Results.List) == 1 && len(fd.Type.Results.List[0].Names) <= 1 {
+		sg.result = goType(fd.Type.Results.List[0].Type)
+	} else if fd.Type.Results != nil && len(fd.Type.Results.List) > 0 {
+		sg.result = "unknown"
+	}
+	return sg
+}
+
+// role gives the canonical Gallina name for a signature shape ("" = a helper).
+func role(sg *sig) string {
+	key := sg.recv + "(" + strings.Join(sg.params, ",") + ")" + sg.result
+	switch key {
+	case "method()":
+		return "gen_ensureParamNames"
+	case "plist(map)":
+		return "gen_keepNames"
+	case "plist(map,bool)":
+		return "gen_ensureNames"
+	case "(map,string,bool)string":
+		return "gen_getSafeParamName"
+	case "(map,string)string":
+		return "gen_reserveParamName"
+	case "imp()string":
+		return "gen_ImportString"
+	}
+	return ""
+}
+
+// lookup returns the signature of a function of the two files, translating it first if need be.
+func lookup(name string) *sig {
+	if sg, ok := sigs[name]; ok {
+		return sg
+	}
+	fd, ok := decls[name]
+	if !ok || inProgress[name] {
+		return nil
+	}
+	translate(name, fd)
+	return sigs[name]
 }
 
 // varOf names the variable an assignable/receiver expression denotes: x, m.Input, m.Output.
@@ -104,12 +219,30 @@ func (f *fn) varOf(e ast.Expr) string {
 	return ""
 }
 
+// elemRef: is e the element of the enclosing range loop — `ps[i]`, or a *Param variable?  Returns
+// the Gallina variable.
+func (f *fn) elemRef(e ast.Expr) (string, bool) {
+	switch x := e.(type) {
+	case *ast.ParenExpr:
+		return f.elemRef(x.X)
+	case *ast.Ident:
+		if f.env[x.Name] == "pinfo" {
+			return "v_" + x.Name, true
+		}
+	case *ast.IndexExpr:
+		if f.loop != nil && f.loop.kind == "range" && f.loop.idx != "" && f.varOf(x.X) == f.loop.src && isIdent(x.Index, f.loop.idx) {
+			return "v_" + f.loop.elem, true
+		}
+	}
+	return "", false
+}
+
 func isIdent(e ast.Expr, name string) bool {
 	id, ok := e.(*ast.Ident)
 	return ok && id.Name == name
 }
 
-// call translates a call of one of the wanted functions: lets binding a fresh result variable
+// call translates a call of a function of the two files: lets binding a fresh result variable
 // and the updated references, and the result variable.
 func (f *fn) call(c *ast.CallExpr) (pre, val, typ string, ok bool) {
 	name, recvVar := "", ""
@@ -119,12 +252,18 @@ func (f *fn) call(c *ast.CallExpr) (pre, val, typ string, ok bool) {
 	case *ast.SelectorExpr:
 		name = fun.Sel.Name
 		recvVar = f.varOf(fun.X)
+		if recvVar == "" || (f.env[recvVar] != "plist" && f.env[recvVar] != "method") {
+			return "", "", "", false // a package-qualified call (strconv.…), not ours
+		}
 	}
-	s := sigs[name]
-	if s == nil {
+	if _, declared := decls[name]; !declared {
 		return "", "", "", false
 	}
-	if (s.recv == "plist") != (recvVar != "" && f.env[recvVar] == "plist") || len(c.Args) != len(s.params) {
+	s := lookup(name)
+	if s == nil {
+		return "", f.bad("recursive or untranslatable call of " + name), "unknown", true
+	}
+	if (s.recv == "plist") != (recvVar != "" && f.env[recvVar] == "plist") || s.recv == "method" || len(c.Args) != len(s.params) {
 		return "", f.bad("call shape of " + name), "unknown", true
 	}
 	args, outs := []string{}, []string{}
@@ -150,11 +289,14 @@ func (f *fn) call(c *ast.CallExpr) (pre, val, typ string, ok bool) {
 		val = fmt.Sprintf("t_%d", f.tmp)
 		outs = append([]string{val}, outs...)
 	}
+	if len(outs) == 0 {
+		return pre, f.bad("call of " + name + " without effect"), "unknown", true
+	}
 	lhs := outs[0]
 	if len(outs) > 1 {
 		lhs = "'(" + strings.Join(outs, ", ") + ")"
 	}
-	pre += "let " + lhs + " := gen_" + name + " " + strings.Join(args, " ") + " in\n"
+	pre += "let " + lhs + " := " + s.coq + " " + strings.Join(args, " ") + " in\n"
 	return pre, val, s.result, true
 }
 
@@ -176,21 +318,33 @@ func (f *fn) expr(e ast.Expr, want string) (pre, val, typ string) {
 		switch x.Kind {
 		case token.STRING:
 			s, err := strconv.Unquote(x.Value)
-			if err != nil || strings.ContainsAny(s, "\"\n") {
+			if err != nil || strings.ContainsAny(s, "\n") {
 				return "", f.bad("string literal"), "string"
 			}
-			return "", "\"" + s + "\"%string", "string"
+			return "", "\"" + strings.ReplaceAll(s, "\"", "\"\"") + "\"%string", "string"
 		case token.INT:
 			if want == "N" {
 				return "", x.Value + "%N", "N"
 			}
 			return "", x.Value + "%nat", "nat"
 		}
+	case *ast.IndexExpr:
+		if v, ok := f.elemRef(x); ok {
+			return "", v, "pinfo"
+		}
 	case *ast.SelectorExpr:
 		if x.Sel.Name == "Name" {
-			if id, ok := x.X.(*ast.Ident); ok && f.env[id.Name] == "pinfo" {
-				return "", "(pi_name v_" + id.Name + ")", "string"
+			if v, ok := f.elemRef(x.X); ok {
+				return "", "(pi_name " + v + ")", "string"
 			}
+		}
+		if id, ok := x.X.(*ast.Ident); ok && f.env[id.Name] == "imp" {
+			if fld, ok := impField[x.Sel.Name]; ok {
+				return "", "(" + fld[0] + " v_" + id.Name + ")", fld[1]
+			}
+		}
+		if id, ok := x.X.(*ast.Ident); ok && f.env[id.Name] == "melem" && x.Sel.Name == "Name" {
+			return "", "(name v_" + id.Name + ")", "string"
 		}
 		if v := f.varOf(x); v != "" {
 			return "", "v_" + v, f.env[v]
@@ -229,6 +383,8 @@ func (f *fn) expr(e ast.Expr, want string) (pre, val, typ string) {
 				eq = "(Nat.eqb " + l + " " + r + ")"
 			case tl == "N" && tr == "N":
 				eq = "(N.eqb " + l + " " + r + ")"
+			case tl == "bool" && tr == "bool":
+				eq = "(Bool.eqb " + l + " " + r + ")"
 			}
 			if eq != "" {
 				if x.Op == token.NEQ {
@@ -255,24 +411,37 @@ func (f *fn) expr(e ast.Expr, want string) (pre, val, typ string) {
 				return "", "map_empty", "map"
 			case fun.Name == "TypeImplements" && len(x.Args) == 2:
 				if s, ok := x.Args[0].(*ast.SelectorExpr); ok && s.Sel.Name == "ActualType" {
-					if id, ok := s.X.(*ast.Ident); ok && f.env[id.Name] == "pinfo" {
+					if v, ok := f.elemRef(s.X); ok {
 						switch {
 						case isIdent(x.Args[1], "ErrorInterface"):
-							return "", "(type_implements_error v_" + id.Name + ")", "bool"
+							return "", "(type_implements_error " + v + ")", "bool"
 						case isIdent(x.Args[1], "ContextInterface"):
-							return "", "(type_implements_context v_" + id.Name + ")", "bool"
+							return "", "(type_implements_context " + v + ")", "bool"
 						}
 					}
 				}
 			}
 		case *ast.SelectorExpr:
-			// strconv.FormatInt(e, 10)
+			// set.Has(k)
+			if v := f.varOf(fun.X); v != "" && f.env[v] == "mset" && fun.Sel.Name == "Has" && len(x.Args) == 1 {
+				p, k, t := f.expr(x.Args[0], "nat")
+				if t == "string" {
+					return p, "(mset_has v_" + v + " " + k + ")", "bool"
+				}
+			}
+			// strconv.FormatInt(e, 10), strconv.Itoa(e)
 			if isIdent(fun.X, "strconv") && fun.Sel.Name == "FormatInt" && len(x.Args) == 2 {
 				if lit, ok := x.Args[1].(*ast.BasicLit); ok && lit.Value == "10" {
 					p, v, t := f.expr(x.Args[0], "N")
 					if t == "N" {
 						return p, "(fmt_int " + v + ")", "string"
 					}
+				}
+			}
+			if isIdent(fun.X, "strconv") && fun.Sel.Name == "Itoa" && len(x.Args) == 1 {
+				p, v, t := f.expr(x.Args[0], "N")
+				if t == "N" {
+					return p, "(fmt_int " + v + ")", "string"
 				}
 			}
 		}
@@ -303,12 +472,24 @@ func (f *fn) assigned(list []ast.Stmt) []string {
 						mark(v)
 					} else if id, ok := t.X.(*ast.Ident); ok {
 						mark(id.Name)
+					} else if _, ok := f.elemRef(t.X); ok && f.loop != nil && f.loop.kind == "range" {
+						mark(f.loop.elem) // ps[i].Name = e changes the element
 					}
 				case *ast.Ident:
 					if s.Tok == token.DEFINE {
 						declared[t.Name] = true
 					} else {
 						mark(t.Name)
+					}
+				}
+			}
+		case *ast.DeclStmt:
+			if gd, ok := s.Decl.(*ast.GenDecl); ok {
+				for _, sp := range gd.Specs {
+					if vs, ok := sp.(*ast.ValueSpec); ok {
+						for _, n := range vs.Names {
+							declared[n.Name] = true
+						}
 					}
 				}
 			}
@@ -319,16 +500,26 @@ func (f *fn) assigned(list []ast.Stmt) []string {
 			switch fun := s.Fun.(type) {
 			case *ast.Ident:
 				name = fun.Name
+				if name == "delete" && len(s.Args) == 2 {
+					mark(f.varOf(s.Args[0]))
+				}
 			case *ast.SelectorExpr:
 				name = fun.Sel.Name
-				if sg := sigs[name]; sg != nil && sg.recv == "plist" {
-					mark(f.varOf(fun.X))
+				if v := f.varOf(fun.X); name == "Add" && f.env[v] == "mset" {
+					mark(v)
+				}
+				if _, ours := decls[name]; ours {
+					if sg := lookup(name); sg != nil && sg.recv == "plist" {
+						mark(f.varOf(fun.X))
+					}
 				}
 			}
-			if sg := sigs[name]; sg != nil {
-				for i, a := range s.Args {
-					if i < len(sg.params) && sg.params[i] == "map" {
-						mark(f.varOf(a))
+			if _, ours := decls[name]; ours {
+				if sg := lookup(name); sg != nil {
+					for i, a := range s.Args {
+						if i < len(sg.params) && sg.params[i] == "map" {
+							mark(f.varOf(a))
+						}
 					}
 				}
 			}
@@ -366,6 +557,19 @@ func tuple(vars []string) string {
 	parts := make([]string, len(vars))
 	for i, v := range vars {
 		parts[i] = "v_" + v
+	}
+	return "(" + strings.Join(parts, ", ") + ")"
+}
+
+// tupleWith: the loop state of a `for { … break … }` loop: the variables and the go flag
+func tupleWith(vars []string, flag string) string {
+	parts := make([]string, 0, len(vars)+1)
+	for _, v := range vars {
+		parts = append(parts, "v_"+v)
+	}
+	parts = append(parts, flag)
+	if len(parts) == 1 {
+		return parts[0]
 	}
 	return "(" + strings.Join(parts, ", ") + ")"
 }
@@ -418,13 +622,144 @@ func (f *fn) firstMap(nodes ...ast.Node) string {
 	return found
 }
 
-// stmts renders a statement list in continuation style; k is the term for "fell off the end".
-func (f *fn) stmts(list []ast.Stmt, k string) string {
+// jumps: does the statement contain a continue / break / return that leaves it (jumps of nested
+// loops excluded, returns included)?
+func jumps(n ast.Node) bool {
+	found := false
+	var walk func(n ast.Node, inLoop bool)
+	walk = func(n ast.Node, inLoop bool) {
+		ast.Inspect(n, func(x ast.Node) bool {
+			if x == nil || found {
+				return false
+			}
+			switch s := x.(type) {
+			case *ast.FuncLit:
+				return false
+			case *ast.ReturnStmt:
+				found = true
+			case *ast.BranchStmt:
+				if !inLoop && (s.Tok == token.CONTINUE || s.Tok == token.BREAK) {
+					found = true
+				}
+			case *ast.ForStmt:
+				if x != n {
+					walk(s.Body, true)
+					return false
+				}
+			case *ast.RangeStmt:
+				if x != n {
+					walk(s.Body, true)
+					return false
+				}
+			}
+			return true
+		})
+	}
+	walk(n, false)
+	return found
+}
+
+// switchToIf rewrites a tagless switch as the if-chain it abbreviates.
+func (f *fn) switchToIf(s *ast.SwitchStmt) (*ast.IfStmt, bool) {
+	if s.Tag != nil {
+		return nil, false
+	}
+	var cases []*ast.CaseClause
+	var deflt *ast.CaseClause
+	for _, c := range s.Body.List {
+		cc, ok := c.(*ast.CaseClause)
+		if !ok {
+			return nil, false
+		}
+		for _, st := range cc.Body {
+			bad := false
+			ast.Inspect(st, func(x ast.Node) bool {
+				switch b := x.(type) {
+				case *ast.ForStmt, *ast.RangeStmt, *ast.FuncLit:
+					return false
+				case *ast.BranchStmt:
+					if b.Tok == token.BREAK || b.Tok == token.FALLTHROUGH {
+						bad = true // leaves the switch, not a loop
+					}
+				}
+				return true
+			})
+			if bad {
+				return nil, false
+			}
+		}
+		if cc.List == nil {
+			deflt = cc
+		} else {
+			cases = append(cases, cc)
+		}
+	}
+	var els ast.Stmt
+	if deflt != nil {
+		els = &ast.BlockStmt{List: deflt.Body}
+	}
+	if len(cases) == 0 {
+		return &ast.IfStmt{Init: s.Init, Cond: ast.NewIdent("true"), Body: &ast.BlockStmt{List: func() []ast.Stmt {
+			if deflt != nil {
+				return deflt.Body
+			}
+			return nil
+		}()}}, true
+	}
+	for i := len(cases) - 1; i >= 0; i-- {
+		cond := cases[i].List[0]
+		for _, e := range cases[i].List[1:] {
+			cond = &ast.BinaryExpr{X: cond, Op: token.LOR, Y: e}
+		}
+		is := &ast.IfStmt{Cond: cond, Body: &ast.BlockStmt{List: cases[i].Body}, Else: els}
+		els = is
+	}
+	top := els.(*ast.IfStmt)
+	top.Init = s.Init
+	return top, true
+}
+
+func concat(a []ast.Stmt, b []ast.Stmt) []ast.Stmt {
+	return append(append([]ast.Stmt{}, a...), b...)
+}
+
+// stmts renders a statement list in continuation style; k gives the term for "fell off the end".
+func (f *fn) stmts(list []ast.Stmt, k func() string) string {
 	if len(list) == 0 {
-		return k
+		return k()
 	}
 	rest := func() string { return f.stmts(list[1:], k) }
 	switch s := list[0].(type) {
+	case *ast.EmptyStmt:
+		return rest()
+	case *ast.DeclStmt:
+		gd, ok := s.Decl.(*ast.GenDecl)
+		if !ok || gd.Tok != token.VAR {
+			return f.bad("declaration")
+		}
+		out := ""
+		for _, sp := range gd.Specs {
+			vs, ok := sp.(*ast.ValueSpec)
+			if !ok || len(vs.Values) != 0 || vs.Type == nil {
+				return f.bad("var with initialiser")
+			}
+			zero, t := "", goType(vs.Type)
+			switch t {
+			case "string":
+				zero = "\"\"%string"
+			case "bool":
+				zero = "false"
+			case "nat":
+				zero, t = "0%N", "N" // an int counter
+			default:
+				return f.bad("var of type " + t)
+			}
+			for _, n := range vs.Names {
+				f.env[n.Name] = t
+				out += "let v_" + n.Name + " := " + zero + " in\n"
+			}
+		}
+		return out + rest()
 	case *ast.AssignStmt:
 		// v, ok := m[k]   /   _, ok = m[k]
 		if len(s.Lhs) == 2 && len(s.Rhs) == 1 {
@@ -445,6 +780,11 @@ func (f *fn) stmts(list []ast.Stmt, k string) string {
 				}
 				return out + rest()
 			}
+			if isIx && aok && bok && f.env[f.varOf(ix.X)] == "mmap" && a.Name == "_" {
+				p, key, _ := f.expr(ix.Index, "nat")
+				f.env[b.Name] = "bool"
+				return p + "let v_" + b.Name + " := mmap_has v_" + f.varOf(ix.X) + " " + key + " in\n" + rest()
+			}
 			return f.bad("two-value assign")
 		}
 		if len(s.Lhs) != 1 || len(s.Rhs) != 1 || (s.Tok != token.DEFINE && s.Tok != token.ASSIGN) {
@@ -453,6 +793,14 @@ func (f *fn) stmts(list []ast.Stmt, k string) string {
 		switch l := s.Lhs[0].(type) {
 		case *ast.IndexExpr: // m[k] = e
 			m := f.varOf(l.X)
+			if f.env[m] == "mmap" {
+				pk, key, _ := f.expr(l.Index, "nat")
+				pv, v, t := f.expr(s.Rhs[0], "nat")
+				if t != "melem" {
+					return f.bad("candidate of type " + t)
+				}
+				return pk + pv + "let v_" + m + " := mmap_set v_" + m + " " + key + " " + v + " in\n" + rest()
+			}
 			if f.env[m] != "map" {
 				return f.bad("index assign")
 			}
@@ -462,18 +810,27 @@ func (f *fn) stmts(list []ast.Stmt, k string) string {
 				return f.bad("map value of type " + t)
 			}
 			return pk + pv + "let v_" + m + " := map_set v_" + m + " " + key + " " + v + " in\n" + rest()
-		case *ast.SelectorExpr: // p.Name = e
-			id, ok := l.X.(*ast.Ident)
-			if !ok || f.env[id.Name] != "pinfo" || l.Sel.Name != "Name" {
+		case *ast.SelectorExpr: // p.Name = e, ps[i].Name = e
+			el, ok := f.elemRef(l.X)
+			if !ok || l.Sel.Name != "Name" {
 				return f.bad("field assign")
 			}
 			p, v, t := f.expr(s.Rhs[0], "nat")
 			if t != "string" {
 				return f.bad("name of type " + t)
 			}
-			return p + "let v_" + id.Name + " := set_name v_" + id.Name + " " + v + " in\n" + rest()
+			return p + "let " + el + " := set_name " + el + " " + v + " in\n" + rest()
 		case *ast.Ident:
+			// p := ps[i]: p stands for the element from here on
+			if el, ok := f.elemRef(s.Rhs[0]); ok && s.Tok == token.DEFINE && f.loop != nil && f.loop.kind == "range" {
+				f.env[l.Name] = "pinfo"
+				f.loop.elem = l.Name
+				return "let v_" + l.Name + " := " + el + " in\n" + rest()
+			}
 			p, v, t := f.expr(s.Rhs[0], "nat")
+			if l.Name == "_" {
+				return p + rest()
+			}
 			if s.Tok == token.DEFINE {
 				f.env[l.Name] = t
 			} else if f.env[l.Name] != t {
@@ -493,24 +850,89 @@ func (f *fn) stmts(list []ast.Stmt, k string) string {
 			if p, _, _, ok := f.call(c); ok {
 				return p + rest()
 			}
+			// set.Add(k), delete(m, k)
+			if sel, ok := c.Fun.(*ast.SelectorExpr); ok && sel.Sel.Name == "Add" && len(c.Args) == 1 && f.env[f.varOf(sel.X)] == "mset" {
+				p, k, t := f.expr(c.Args[0], "nat")
+				if t == "string" {
+					v := f.varOf(sel.X)
+					return p + "let v_" + v + " := mset_add v_" + v + " " + k + " in\n" + rest()
+				}
+			}
+			if isIdent(c.Fun, "delete") && len(c.Args) == 2 && f.env[f.varOf(c.Args[0])] == "mmap" {
+				p, k, t := f.expr(c.Args[1], "nat")
+				if t == "string" {
+					v := f.varOf(c.Args[0])
+					return p + "let v_" + v + " := mmap_del v_" + v + " " + k + " in\n" + rest()
+				}
+			}
 		}
 		return f.bad("expression statement")
 	case *ast.ReturnStmt:
-		if len(s.Results) != 1 || len(list) != 1 {
+		if len(s.Results) != 1 || f.loop != nil {
 			return f.bad("return form")
 		}
 		p, v, _ := f.expr(s.Results[0], "nat")
 		return p + "(" + strings.Join(append([]string{v}, f.outs...), ", ") + ")"
+	case *ast.BranchStmt:
+		if f.loop == nil || s.Label != nil {
+			return f.bad("jump outside a loop")
+		}
+		switch {
+		case s.Tok == token.CONTINUE && f.loop.kind == "range":
+			return "(v_" + f.loop.elem + ", " + tuple(f.loop.vars) + ")"
+		case s.Tok == token.CONTINUE && f.loop.kind == "step":
+			return tuple(f.loop.vars)
+		case s.Tok == token.CONTINUE && f.loop.kind == "dowhile":
+			return tupleWith(f.loop.vars, "true")
+		case s.Tok == token.BREAK && f.loop.kind == "dowhile":
+			return tupleWith(f.loop.vars, "false")
+		}
+		return f.bad("jump " + s.Tok.String() + " in a " + f.loop.kind + " loop")
 	case *ast.BlockStmt:
-		return f.stmts(append(append([]ast.Stmt{}, s.List...), list[1:]...), k)
+		return f.stmts(concat(s.List, list[1:]), k)
+	case *ast.SwitchStmt:
+		is, ok := f.switchToIf(s)
+		if !ok {
+			return f.bad("switch form")
+		}
+		return f.stmts(concat([]ast.Stmt{is}, list[1:]), k)
 	case *ast.IfStmt:
+		if jumps(s) {
+			// tail form: the rest of the block goes into both branches
+			pre := ""
+			if s.Init != nil {
+				pre = f.stmts([]ast.Stmt{s.Init}, func() string { return "INIT_END" })
+				if !strings.HasSuffix(pre, "INIT_END") {
+					return f.bad("if init")
+				}
+				pre = strings.TrimSuffix(pre, "INIT_END")
+			}
+			pc, cond, _ := f.expr(s.Cond, "nat")
+			then := f.stmts(concat(s.Body.List, list[1:]), k)
+			var els string
+			switch e := s.Else.(type) {
+			case *ast.IfStmt:
+				els = f.stmts(concat([]ast.Stmt{e}, list[1:]), k)
+			case *ast.BlockStmt:
+				els = f.stmts(concat(e.List, list[1:]), k)
+			default:
+				els = f.stmts(list[1:], k)
+			}
+			return pre + pc + "(if " + cond + " then\n" + then + "\nelse\n" + els + ")"
+		}
 		vars := f.assigned([]ast.Stmt{s})
 		return "let " + pat(vars) + " := (" + f.ifChain(s, vars) + ") in\n" + rest()
 	case *ast.ForStmt:
+		if src, idx, ok := f.indexLoop(s); ok {
+			return f.rangeLoop(src, idx, "", s.Body.List) + rest()
+		}
+		if s.Init == nil && s.Cond == nil && s.Post == nil {
+			return f.doWhile(s) + rest()
+		}
 		if s.Init == nil || s.Cond == nil || s.Post == nil {
 			return f.bad("for without init/cond/post")
 		}
-		init := f.stmts([]ast.Stmt{s.Init}, "INIT_END")
+		init := f.stmts([]ast.Stmt{s.Init}, func() string { return "INIT_END" })
 		if !strings.HasSuffix(init, "INIT_END") {
 			return f.bad("for init")
 		}
@@ -532,50 +954,389 @@ func (f *fn) stmts(list []ast.Stmt, k string) string {
 		if pc != "" {
 			return f.bad("call in loop condition")
 		}
-		body := f.stmts(append(append([]ast.Stmt{}, s.Body.List...), s.Post), tuple(vars))
+		outer := f.loop
+		f.loop = &loopCtx{kind: "for3", vars: vars}
+		body := f.stmts(append(append([]ast.Stmt{}, s.Body.List...), s.Post), func() string { return tuple(vars) })
+		f.loop = outer
 		return init + "let " + pat(vars) + " := while_loop (loop_fuel v_" + m + ")\n(fun " + pat(vars) + " => " + cond +
 			")\n(fun " + pat(vars) + " =>\n" + body + ")\n" + tuple(vars) + " in\n" + rest()
 	case *ast.RangeStmt:
 		src := f.varOf(s.X)
-		el, isEl := s.Value.(*ast.Ident)
-		if f.env[src] != "plist" || !isEl || s.Tok != token.DEFINE {
+		if f.env[src] != "plist" || s.Tok != token.DEFINE {
 			return f.bad("range form")
 		}
-		idx := "i_unused"
+		idx, el := "", ""
 		if id, ok := s.Key.(*ast.Ident); ok && id.Name != "_" {
-			idx = "v_" + id.Name
-			f.env[id.Name] = "nat"
+			idx = id.Name
 		}
-		f.env[el.Name] = "pinfo"
-		vars := without(without(f.assigned(s.Body.List), el.Name), src)
-		body := f.stmts(s.Body.List, "(v_"+el.Name+", "+tuple(vars)+")")
-		delete(f.env, el.Name)
-		return "let '(v_" + src + ", " + strings.TrimPrefix(pat(vars), "'") + ") := range_upd\n(fun (st : " + f.stateType(vars) +
-			") " + idx + " v_" + el.Name + " => let " + pat(vars) + " := st in\n" + body + ")\nv_" + src + " " + tuple(vars) + " in\n" + rest()
+		if s.Value != nil {
+			id, ok := s.Value.(*ast.Ident)
+			if !ok {
+				return f.bad("range value")
+			}
+			if id.Name != "_" {
+				el = id.Name
+			}
+		}
+		return f.rangeLoop(src, idx, el, s.Body.List) + rest()
 	}
 	return f.bad(fmt.Sprintf("stmt %T", list[0]))
+}
+
+// indexLoop recognises `for i := 0; i < len(ps); i++ { … }` over a parameter list.
+func (f *fn) indexLoop(s *ast.ForStmt) (src, idx string, ok bool) {
+	init, isA := s.Init.(*ast.AssignStmt)
+	if !isA || init.Tok != token.DEFINE || len(init.Lhs) != 1 || len(init.Rhs) != 1 {
+		return "", "", false
+	}
+	id, isId := init.Lhs[0].(*ast.Ident)
+	lit, isLit := init.Rhs[0].(*ast.BasicLit)
+	if !isId || !isLit || lit.Value != "0" {
+		return "", "", false
+	}
+	cond, isB := s.Cond.(*ast.BinaryExpr)
+	if !isB || cond.Op != token.LSS || !isIdent(cond.X, id.Name) {
+		return "", "", false
+	}
+	c, isC := cond.Y.(*ast.CallExpr)
+	if !isC || !isIdent(c.Fun, "len") || len(c.Args) != 1 {
+		return "", "", false
+	}
+	src = f.varOf(c.Args[0])
+	if f.env[src] != "plist" {
+		return "", "", false
+	}
+	post, isP := s.Post.(*ast.IncDecStmt)
+	if !isP || post.Tok != token.INC || !isIdent(post.X, id.Name) {
+		return "", "", false
+	}
+	// the body must not assign the index
+	for _, v := range f.assigned(s.Body.List) {
+		if v == id.Name {
+			return "", "", false
+		}
+	}
+	return src, id.Name, true
+}
+
+// rangeLoop: every form of "for each element of the receiver list, in order" is range_upd.
+func (f *fn) rangeLoop(src, idx, el string, body []ast.Stmt) string {
+	if el == "" {
+		el = "el_" + src
+	}
+	idxName := "i_unused"
+	if idx != "" {
+		idxName = "v_" + idx
+		f.env[idx] = "nat"
+	}
+	f.env[el] = "pinfo"
+	outer := f.loop
+	lc := &loopCtx{kind: "range", src: src, idx: idx, elem: el}
+	f.loop = lc
+	lc.vars = without(without(f.assigned(body), el), src)
+	vars := lc.vars
+	bodyT := f.stmts(body, func() string { return "(v_" + lc.elem + ", " + tuple(vars) + ")" })
+	f.loop = outer
+	delete(f.env, el)
+	if idx != "" {
+		delete(f.env, idx)
+	}
+	return "let '(v_" + src + ", " + strings.TrimPrefix(pat(vars), "'") + ") := range_upd\n(fun (st : " + f.stateType(vars) +
+		") " + idxName + " v_" + el + " => let " + pat(vars) + " := st in\n" + bodyT + ")\nv_" + src + " " + tuple(vars) + " in\n"
+}
+
+// doWhile: `for { body }` left by break: while_loop over the assigned variables and a go flag.
+func (f *fn) doWhile(s *ast.ForStmt) string {
+	vars := f.assigned(s.Body.List)
+	m := f.firstMap(s.Body)
+	if m == "" {
+		return f.bad("loop that consults no map (no bound available)")
+	}
+	outer := f.loop
+	f.loop = &loopCtx{kind: "dowhile", vars: vars}
+	body := f.stmts(s.Body.List, func() string { return tupleWith(vars, "true") })
+	f.loop = outer
+	st := "'" + tupleWith(vars, "go_on")
+	return "let " + st + " := while_loop (loop_fuel v_" + m + ")\n(fun " + st + " => go_on)\n(fun " + st + " =>\n" + body + ")\n" +
+		tupleWith(vars, "true") + " in\n"
 }
 
 // ifChain renders if / else if / else as an expression returning the tuple of vars.
 func (f *fn) ifChain(s *ast.IfStmt, vars []string) string {
 	pre := ""
 	if s.Init != nil {
-		pre = f.stmts([]ast.Stmt{s.Init}, "INIT_END")
+		pre = f.stmts([]ast.Stmt{s.Init}, func() string { return "INIT_END" })
 		if !strings.HasSuffix(pre, "INIT_END") {
 			return f.bad("if init")
 		}
 		pre = strings.TrimSuffix(pre, "INIT_END")
 	}
 	pc, cond, _ := f.expr(s.Cond, "nat")
-	then := f.stmts(s.Body.List, tuple(vars))
+	end := func() string { return tuple(vars) }
+	then := f.stmts(s.Body.List, end)
 	els := tuple(vars)
 	switch e := s.Else.(type) {
 	case *ast.IfStmt:
 		els = f.ifChain(e, vars)
 	case *ast.BlockStmt:
-		els = f.stmts(e.List, tuple(vars))
+		els = f.stmts(e.List, end)
 	}
 	return pre + pc + "if " + cond + " then\n" + then + "\nelse\n" + els
+}
+
+// translate emits the Gallina definition of one function (after those of its callees).
+func translate(name string, fd *ast.FuncDecl) {
+	inProgress[name] = true
+	defer delete(inProgress, name)
+	f := &fn{name: name, env: map[string]string{}}
+	sg := sigOf(fd)
+	sg.coq = role(sg)
+	if sg.coq == "" || usedCoq[sg.coq] {
+		sg.coq = "gen_h_" + name
+		helpers = append(helpers, sg.coq)
+	}
+	usedCoq[sg.coq] = true
+	def := "Definition " + sg.coq
+	if fd.Recv != nil && len(fd.Recv.List) == 1 && len(fd.Recv.List[0].Names) == 1 {
+		r := fd.Recv.List[0].Names[0].Name
+		switch sg.recv {
+		case "plist":
+			f.env[r] = "plist"
+			def += " (v_" + r + " : list pinfo)"
+			f.outs = append(f.outs, "v_"+r)
+		case "method":
+			f.env[r] = "method"
+			for _, fld := range []string{"Input", "Output"} {
+				f.env[r+"_"+fld] = "plist"
+				def += " (v_" + r + "_" + fld + " : list pinfo)"
+				f.outs = append(f.outs, "v_"+r+"_"+fld)
+			}
+		case "imp":
+			f.env[r] = "imp"
+			def += " (v_" + r + " : imp)"
+		default:
+			def += " (v_" + r + " : UNSUPPORTED_receiver_type)"
+			f.problems = append(f.problems, "receiver type")
+		}
+	}
+	i := 0
+	for _, p := range fd.Type.Params.List {
+		for _, n := range p.Names {
+			t := sg.params[i]
+			i++
+			f.env[n.Name] = t
+			ct, known := coqType[t]
+			if !known {
+				ct = "UNSUPPORTED_param_type"
+				f.problems = append(f.problems, "parameter type")
+			}
+			def += " (v_" + n.Name + " : " + ct + ")"
+			if t == "map" {
+				f.outs = append(f.outs, "v_"+n.Name)
+			}
+		}
+	}
+	end := "(" + strings.Join(f.outs, ", ") + ")"
+	if len(f.outs) == 0 {
+		end = "tt"
+	}
+	if sg.result != "" {
+		end = "MISSING_RETURN"
+	}
+	body := f.stmts(fd.Body.List, func() string { return end })
+	if strings.Contains(body, "MISSING_RETURN") {
+		body = strings.ReplaceAll(body, "MISSING_RETURN", f.bad("missing return"))
+	}
+	sigs[name] = sg
+	translated = append(translated, name+" as "+sg.coq)
+	defs.WriteString("(* " + name + " *)\n" + def + " :=\n" + body + ".\n\n")
+	for _, p := range f.problems {
+		problems = append(problems, name+": "+p)
+	}
+}
+
+// entry finds the method MethodFromSignature calls on the Method it builds.
+func entry() string {
+	fd, ok := decls["MethodFromSignature"]
+	if !ok {
+		return ""
+	}
+	found := ""
+	ast.Inspect(fd.Body, func(n ast.Node) bool {
+		es, ok := n.(*ast.ExprStmt)
+		if !ok {
+			return true
+		}
+		c, ok := es.X.(*ast.CallExpr)
+		if !ok || len(c.Args) != 0 {
+			return true
+		}
+		sel, ok := c.Fun.(*ast.SelectorExpr)
+		if !ok {
+			return true
+		}
+		if d, ok := decls[sel.Sel.Name]; ok && d.Recv != nil && found == "" && sigOf(d).recv == "method" {
+			found = sel.Sel.Name
+		}
+		return true
+	})
+	return found
+}
+
+// hasCall: does the node contain a call of the plain function / the method called name?
+func hasCall(n ast.Node, name string) bool {
+	found := false
+	ast.Inspect(n, func(x ast.Node) bool {
+		if c, ok := x.(*ast.CallExpr); ok {
+			switch fun := c.Fun.(type) {
+			case *ast.Ident:
+				found = found || fun.Name == name
+			case *ast.SelectorExpr:
+				found = found || fun.Sel.Name == name
+			}
+		}
+		return !found
+	})
+	return found
+}
+
+// madeAs: the local variables of fd made as map[string]*Method ("mmap") or set.Set[string] ("mset")
+func madeAs(fd *ast.FuncDecl) map[string]string {
+	out := map[string]string{}
+	ast.Inspect(fd.Body, func(x ast.Node) bool {
+		as, ok := x.(*ast.AssignStmt)
+		if !ok || as.Tok != token.DEFINE || len(as.Lhs) != 1 || len(as.Rhs) != 1 {
+			return true
+		}
+		id, ok := as.Lhs[0].(*ast.Ident)
+		c, ok2 := as.Rhs[0].(*ast.CallExpr)
+		if !ok || !ok2 || !isIdent(c.Fun, "make") || len(c.Args) == 0 {
+			return true
+		}
+		switch t := c.Args[0].(type) {
+		case *ast.MapType:
+			if isIdent(t.Key, "string") {
+				if st, ok := t.Value.(*ast.StarExpr); ok && isIdent(st.X, "Method") {
+					out[id.Name] = "mmap"
+				}
+			}
+		case *ast.IndexExpr: // set.Set[string]
+			if sel, ok := t.X.(*ast.SelectorExpr); ok && sel.Sel.Name == "Set" && isIdent(t.Index, "string") {
+				out[id.Name] = "mset"
+			}
+		}
+		return true
+	})
+	return out
+}
+
+// mergeStep translates the loop that merges the methods of one embedded field: the (innermost)
+// range loop of interface.go whose body deletes from a map.
+func mergeStep(file *ast.File) string {
+	for _, d := range file.Decls {
+		fd, ok := d.(*ast.FuncDecl)
+		if !ok || fd.Body == nil {
+			continue
+		}
+		var loop *ast.RangeStmt
+		ast.Inspect(fd.Body, func(x ast.Node) bool {
+			if r, ok := x.(*ast.RangeStmt); ok && hasCall(r.Body, "delete") {
+				loop = r // keeps the innermost one (visited last)
+			}
+			return true
+		})
+		if loop == nil {
+			continue
+		}
+		f := &fn{name: "merge step", env: map[string]string{}}
+		el, ok := loop.Value.(*ast.Ident)
+		if !ok || el.Name == "_" {
+			problems = append(problems, "merge step: range without element variable")
+			return "Definition gen_merge_step := UNSUPPORTED_merge_loop_form.\n\n"
+		}
+		var mm, ms []string
+		for v, t := range madeAs(fd) {
+			used := false
+			ast.Inspect(loop.Body, func(x ast.Node) bool {
+				if id, ok := x.(*ast.Ident); ok && id.Name == v {
+					used = true
+				}
+				return true
+			})
+			if used {
+				f.env[v] = t
+				if t == "mmap" {
+					mm = append(mm, v)
+				} else {
+					ms = append(ms, v)
+				}
+			}
+		}
+		if len(mm) != 1 || len(ms) != 1 {
+			problems = append(problems, "merge step: expected one map of candidates and one set of names")
+			return "Definition gen_merge_step := UNSUPPORTED_merge_loop_state.\n\n"
+		}
+		f.env[el.Name] = "melem"
+		vars := []string{mm[0], ms[0]}
+		f.loop = &loopCtx{kind: "step", vars: vars}
+		body := f.stmts(loop.Body.List, func() string { return tuple(vars) })
+		for _, p := range f.problems {
+			problems = append(problems, "merge step: "+p)
+		}
+		translated = append(translated, "the merge loop of "+fd.Name.Name+" as gen_merge_step")
+		return "(* the loop of " + fd.Name.Name + " over the methods of one embedded field *)\n" +
+			"Definition gen_merge_step {A : Type} (name : A -> string) (v_" + mm[0] + " : list (string * A)) (v_" + ms[0] +
+			" : list string) (v_" + el.Name + " : A) :=\n" + body + ".\n\n"
+	}
+	problems = append(problems, "merge step: no range loop deleting from a map in interface.go")
+	return "Definition gen_merge_step := UNSUPPORTED_merge_loop_not_found.\n\n"
+}
+
+// visibleCond translates the condition under which a declared method is listed: the condition of
+// the if that asks `.Exported()`; `opts.Has(IncludePrivate)` is the option bit.
+func visibleCond(file *ast.File) string {
+	var cond ast.Expr
+	ast.Inspect(file, func(x ast.Node) bool {
+		if is, ok := x.(*ast.IfStmt); ok && cond == nil && hasCall(is.Cond, "Exported") {
+			cond = is.Cond
+		}
+		return cond == nil
+	})
+	if cond == nil {
+		problems = append(problems, "visible: no condition asking Exported() in interface.go")
+		return "Definition gen_visible := UNSUPPORTED_visible_condition_not_found.\n\n"
+	}
+	var tr func(e ast.Expr) string
+	tr = func(e ast.Expr) string {
+		switch x := e.(type) {
+		case *ast.ParenExpr:
+			return tr(x.X)
+		case *ast.UnaryExpr:
+			if x.Op == token.NOT {
+				return "(negb " + tr(x.X) + ")"
+			}
+		case *ast.BinaryExpr:
+			switch x.Op {
+			case token.LOR:
+				return "(orb " + tr(x.X) + " " + tr(x.Y) + ")"
+			case token.LAND:
+				return "(andb " + tr(x.X) + " " + tr(x.Y) + ")"
+			}
+		case *ast.CallExpr:
+			if sel, ok := x.Fun.(*ast.SelectorExpr); ok {
+				if sel.Sel.Name == "Exported" && len(x.Args) == 0 {
+					return "v_exported"
+				}
+				if sel.Sel.Name == "Has" && len(x.Args) == 1 && isIdent(x.Args[0], "IncludePrivate") {
+					return "v_include_private"
+				}
+			}
+		}
+		problems = append(problems, fmt.Sprintf("visible: expr %T", e))
+		return "UNSUPPORTED_visible_condition"
+	}
+	translated = append(translated, "the listing condition as gen_visible")
+	return "(* a declared method is listed if *)\nDefinition gen_visible (v_include_private v_exported : bool) : bool :=\n" + tr(cond) + ".\n\n"
 }
 
 func main() {
@@ -583,84 +1344,51 @@ func main() {
 	out := flag.String("out", "ParamsGen.v", "output file")
 	flag.Parse()
 	fset := token.NewFileSet()
-	decls := map[string]*ast.FuncDecl{}
-	for _, name := range []string{"params.go", "method.go"} {
+	var ifaceFile *ast.File
+	for _, name := range []string{"params.go", "method.go", "imports.go", "interface.go"} {
 		file, err := parser.ParseFile(fset, filepath.Join(*srcDir, name), nil, 0)
 		if err != nil {
 			fmt.Fprintln(os.Stderr, err)
 			os.Exit(2)
 		}
+		if name == "interface.go" {
+			ifaceFile = file
+			continue // only the merge loop and the listing condition are taken from it
+		}
 		for _, d := range file.Decls {
 			if fd, ok := d.(*ast.FuncDecl); ok && fd.Body != nil {
+				if name == "imports.go" && fd.Name.Name != "ImportString" {
+					continue
+				}
 				decls[fd.Name.Name] = fd
 			}
 		}
 	}
 	var b strings.Builder
-	b.WriteString("(* GENERATED by harness/cmd/xlate_params from gencommon/params.go and method.go of the current tree — do not edit *)\n")
+	b.WriteString("(* GENERATED by harness/cmd/xlate_params from gencommon/params.go, method.go, imports.go and interface.go of the current tree — do not edit *)\n")
 	b.WriteString("From Coq Require Import List Bool String NArith Arith.\nImport ListNotations.\nFrom GT Require Import IFaceModel IFaceGenPrims.\n\n")
-	var problems []string
-	for _, name := range wanted {
-		fd, ok := decls[name]
-		if !ok {
-			b.WriteString("Definition gen_" + name + " := UNSUPPORTED_function_" + name + "_not_found.\n\n")
-			problems = append(problems, name+": not found")
-			continue
-		}
-		f := &fn{env: map[string]string{}}
-		sg := &sig{}
-		def := "Definition gen_" + name
-		if fd.Recv != nil && len(fd.Recv.List) == 1 && len(fd.Recv.List[0].Names) == 1 {
-			r := fd.Recv.List[0].Names[0].Name
-			switch goType(fd.Recv.List[0].Type) {
-			case "plist":
-				sg.recv = "plist"
-				f.env[r] = "plist"
-				def += " (v_" + r + " : list pinfo)"
-				f.outs = append(f.outs, "v_"+r)
-			case "method":
-				sg.recv = "method"
-				f.env[r] = "method"
-				for _, fld := range []string{"Input", "Output"} {
-					f.env[r+"_"+fld] = "plist"
-					def += " (v_" + r + "_" + fld + " : list pinfo)"
-					f.outs = append(f.outs, "v_"+r+"_"+fld)
-				}
-			default:
-				def += " (v_" + r + " : UNSUPPORTED_receiver_type)"
-			}
-		}
-		for _, p := range fd.Type.Params.List {
-			t := goType(p.Type)
-			for _, n := range p.Names {
-				f.env[n.Name] = t
-				sg.params = append(sg.params, t)
-				ct, known := coqType[t]
-				if !known {
-					ct = "UNSUPPORTED_param_type"
-				}
-				def += " (v_" + n.Name + " : " + ct + ")"
-				if t == "map" {
-					f.outs = append(f.outs, "v_"+n.Name)
-				}
-			}
-		}
-		end := "(" + strings.Join(f.outs, ", ") + ")"
-		if fd.Type.Results != nil && len(fd.Type.Results.List) == 1 {
-			sg.result = goType(fd.Type.Results.List[0].Type)
-			end = "MISSING_RETURN"
-		}
-		body := f.stmts(fd.Body.List, end)
-		if strings.Contains(body, "MISSING_RETURN") {
-			body = strings.ReplaceAll(body, "MISSING_RETURN", f.bad("missing return"))
-		}
-		sigs[name] = sg
-		b.WriteString(def + " :=\n" + body + ".\n\n")
-		for _, p := range f.problems {
-			problems = append(problems, name+": "+p)
+	e := entry()
+	if e == "" {
+		problems = append(problems, "entry: MethodFromSignature calls no method of *Method")
+	} else {
+		lookup(e)
+	}
+	lookup("ImportString")
+	b.WriteString(defs.String())
+	b.WriteString(mergeStep(ifaceFile))
+	b.WriteString(visibleCond(ifaceFile))
+	for _, want := range []string{"gen_reserveParamName", "gen_getSafeParamName", "gen_keepNames", "gen_ensureNames", "gen_ensureParamNames", "gen_ImportString"} {
+		if !usedCoq[want] {
+			b.WriteString("Definition " + want + " := UNSUPPORTED_no_function_in_the_role_of_" + want + ".\n\n")
+			problems = append(problems, want+": no function of that shape is reachable from MethodFromSignature")
 		}
 	}
-	b.WriteString("(* functions translated: " + strings.Join(wanted, ", ") + " *)\n")
+	if len(helpers) > 0 {
+		b.WriteString("Ltac unfold_gen_helpers := unfold " + strings.Join(helpers, ", ") + " in *.\n\n")
+	} else {
+		b.WriteString("Ltac unfold_gen_helpers := idtac.\n\n")
+	}
+	b.WriteString("(* functions translated: " + strings.Join(translated, ", ") + " *)\n")
 	if err := os.WriteFile(*out, []byte(b.String()), 0o644); err != nil {
 		fmt.Fprintln(os.Stderr, err)
 		os.Exit(2)
